@@ -213,7 +213,9 @@ reg(Row("drop_negligible_operations", ("drop_negligible_operations",),
 
 reg(Row("drop_diagonal_before_measurement", ("drop_diagonal_before_measurement",),
         lambda c, o: cirq.drop_diagonal_before_measurement(c, context=ctx(o)),
-        records=M(boost=Z_LIKE + [CZ1, _g("CZPow", e=0.5, s=0.0), _g("Identity", n=1)], boost_p=0.5, meas=0.6, sub_tags=(0, 0, 0, 1, 1, 2, 4)), dist_only=True, sub_policy="subset", weight=4))
+        records=M(boost=Z_LIKE + [CZ1, _g("CZPow", e=0.5, s=0.0), _g("CZPow", e=0.5, s=0.0), _g("CZPow", e=-0.3, s=0.0), _g("Identity", n=1),
+                         _g("HPow", e=1.0, s=0.0)], boost_p=0.6, meas=0.6, leg_p=6, sub_tags=(0, 0, 0, 1, 1, 2, 4)),
+        dist_only=True, sub_policy="subset", weight=8))
 reg(Row("synchronize_terminal_measurements", ("synchronize_terminal_measurements",),
         lambda c, o: cirq.synchronize_terminal_measurements(c, context=ctx(o), after_other_operations=bool(X(o, "after", True))),
         opts=st.fixed_dictionaries({"after": st.booleans()}), records=M(meas=0.6), weight=3))
